@@ -15,14 +15,17 @@ def check(ctx):
     ctx.assume("determinism of calls, stores returning what was written and increasing modified times are assumptions of the property; value equality over histories is not decided")
     er = E.discover(ctx.model)
     rr = R.discover(ctx.model, er)
-    S.rule_stale_table(ctx, "C03.T1", rr)
+    ctx.run(S.rule_stale_table, "C03.T1", rr)
     ctx.notes["exhaustive"] = True
-    S.rule_order_only(ctx, "C03.T2", rr)
+    ctx.run(S.rule_order_only, "C03.T2", rr)
     from .c18 import rule_normaliser_frames
-    rule_normaliser_frames(ctx, "C03.T2")
-    S.rule_owner_writes_only(ctx, "C03.T3", rr)
-    S.rule_every_stale_entry_rebuilt(ctx, "C03.T4", rr)
-    S.rule_ancestor_closure(ctx, "C03.T5", rr)
-    rule_pruning_preserves_paths(ctx, "C03.T5")
-    S.rule_stale_check_sees_stored_nodes(ctx, "C03.T6", rr)
-    E.rule_catch_all(ctx, "C03.T4", er)
+    ctx.run(rule_normaliser_frames, "C03.T2")
+    ctx.run(S.rule_owner_writes_only, "C03.T3", rr)
+    ctx.run(S.rule_every_stale_entry_rebuilt, "C03.T4", rr)
+    ctx.run(S.rule_ancestor_closure, "C03.T5", rr)
+    ctx.run(rule_pruning_preserves_paths, "C03.T5")
+    ctx.run(S.rule_stale_check_sees_stored_nodes, "C03.T6", rr)
+    ctx.run(E.rule_catch_all, "C03.T4", er)
+    from .extra import rule_fresh_time_untouched
+    ctx.run(rule_fresh_time_untouched, "C03.T2", rr)
+    ctx.run(S.rule_apply_examines_whole_plan, "C03.T6", rr)
